@@ -63,12 +63,15 @@ def strategy(tier):
             par = {"asyinit": draw(st.sampled_from([0.5, 0.4, 0.6])), "asyincr": draw(st.sampled_from([1.2, 1.15, 1.3])),
                    "asydecr": draw(st.sampled_from([0.7, 0.65, 0.75])), "albefa": draw(st.sampled_from([0.1, 0.05, 0.2])),
                    "move": draw(st.sampled_from([0.1, 0.2, 0.3, 0.5, 1.0])),
-                   "maxit": draw(st.integers(40, 60))}
+                   "maxit": draw(st.integers(40, 60)),
+                   # bound on the asymptote distance: [1/asybound^2, asybound] times the range (MMA keyword, default 10)
+                   "asybound": draw(st.sampled_from(["default", "default", 10.0, 20.0]))}
         else:
             par = {"asyinit": draw(st.floats(0.05, 1.5)), "asyincr": draw(st.floats(1.0, 1.6)),
                    "asydecr": draw(st.floats(0.4, 1.0)), "albefa": draw(st.floats(0.01, 0.7)),
                    "move": draw(st.floats(0.01, 1.0)),
-                   "maxit": draw(st.sampled_from([1, 2, 3, 5, 8, 12, 20, 30, 45, 60]))}
+                   "maxit": draw(st.sampled_from([1, 2, 3, 5, 8, 12, 20, 30, 45, 60])),
+                   "asybound": draw(st.sampled_from(["default", "default", 3.0, 5.0, 20.0, 50.0]))}
         c = {"sigs": sigs, "obj": draw(st.sampled_from(["recip", "quad", "lse"])), "cons": cons,
              "xmin_form": draw(st.sampled_from(BOUND_FORMS)), "xmax_form": draw(st.sampled_from(BOUND_FORMS)),
              "move_form": draw(st.sampled_from(MOVE_FORMS)),
@@ -274,6 +277,8 @@ def build_problem(case):
           "asydecr": case["asydecr"], "albefa": case["albefa"], "verbosity": case["verbosity"]}
     if case["version"] != "default":
         kw["mmaversion"] = case["version"]
+    if case.get("asybound", "default") != "default":
+        kw["asybound"] = case["asybound"]
     return {"n": n, "k": k, "sizes": sizes, "cum": cum, "xmin": xmin, "xmax": xmax, "move": move, "x0": x0,
             "xref": xref, "f": [f0] + cons, "subsets": [list(range(k))] + subsets, "kw": kw}
 
@@ -627,6 +632,8 @@ def check_case(case, _debug=None):
     if any(c["subset"] for c in case["cons"]) and k > 1 and case["topo"] == "direct":
         labels.append("partial_dependence")
     labels.append("n<=3" if n <= 3 else ("n<=12" if n <= 12 else "n>12"))
+    if case.get("asybound", "default") not in ("default", 10.0):
+        labels.append("asybound_not_default")
     V = []
     seen = set()
 
